@@ -294,6 +294,9 @@ func (x Expr) GetNodes(n gen.Node) (results []gen.Node) {
 							results = append(results, tv[i])
 						}
 					} else {
+						if end <= start { // an empty range selects nothing
+							continue
+						}
 						end = start + (end-start-1)/step*step
 						for i := end; start <= i; i -= step {
 							v = tv[i]
@@ -312,6 +315,9 @@ func (x Expr) GetNodes(n gen.Node) (results []gen.Node) {
 							results = append(results, tv[i])
 						}
 					} else {
+						if start <= end { // an empty range selects nothing
+							continue
+						}
 						end = start - (start-end-1)/step*step
 						for i := end; i <= start; i -= step {
 							v = tv[i]
@@ -569,6 +575,9 @@ func (x Expr) FirstNode(n gen.Node) (result gen.Node) {
 					if int(fi) == len(x)-1 && start < end { // last one
 						return tv[start]
 					}
+					if end <= start { // an empty range selects nothing
+						continue
+					}
 					end = start + (end-start-1)/step*step
 					for i := end; start <= i; i -= step {
 						v = tv[i]
@@ -583,6 +592,9 @@ func (x Expr) FirstNode(n gen.Node) (result gen.Node) {
 					}
 					if int(fi) == len(x)-1 && end < start { // last one
 						return tv[start]
+					}
+					if start <= end { // an empty range selects nothing
+						continue
 					}
 					end = start - (start-end-1)/step*step
 					for i := end; i <= start; i -= step {
